@@ -85,7 +85,7 @@ def mutants(argv):
         print('%-40s %-9s %s %s' % (n, r['status'], 'tests_pass=%s' % r.get('tests_pass') if with_tests else '',
                                     json.dumps(r.get('checks', r.get('out')))[:400]), flush=True)
     print('mutants: %d, killed: %d, survived/failed: %d' % (len(names), len(names) - bad, bad))
-    with open(os.path.join(ROOT, 'mutants', 'last_matrix.json'), 'w') as f:
+    with open(os.path.join(os.environ.get('VERIF_MATRIX_OUT') or os.path.join(ROOT, 'mutants'), 'last_matrix.json'), 'w') as f:
         json.dump(rows, f, indent=1, sort_keys=True)
     return 0 if bad == 0 else 3
 
